@@ -27,6 +27,9 @@ Fixpoint p_cond (c : cond) : string :=
   | CNot a => "not (" ++ p_cond a ++ ")"
   | CAnd a b => "(" ++ p_cond a ++ ") and (" ++ p_cond b ++ ")"
   | COr a b => "(" ++ p_cond a ++ ") or (" ++ p_cond b ++ ")"
+  | CTypeF x t => dq ++ p_tag t ++ dq ++ " == type(x" ++ decn x ++ ")"
+  | CEqNilF x => "nil == x" ++ decn x
+  | CNeNilF x => "nil ~= x" ++ decn x
   end.
 
 Fixpoint p_stmt (s : stmt) : string :=
